@@ -235,8 +235,8 @@ func c18Run(c *core.Ctx) {
 		}
 	}()
 	c18Guard(s, func() {
-		fams := []func(*c18State) bool{c18FamExpr, c18FamStmt, c18FamVal, c18FamLit, c18FamTokens, c18FamChars}
-		names := []string{"expr", "stmt", "val", "lit", "tokens", "chars"}
+		fams := []func(*c18State) bool{c18FamExpr, c18FamStmt, c18FamVal, c18FamLit, c18FamRunes, c18FamTokens, c18FamChars}
+		names := []string{"expr", "stmt", "val", "lit", "runes", "tokens", "chars"}
 		for i, f := range fams {
 			t0 := time.Now()
 			before := s.total
@@ -1088,6 +1088,36 @@ func (s *c18State) tick() {
 	if s.nCases > 1<<15 {
 		s.flush()
 	}
+}
+
+// c18FamRunes: single code points the scanner hands to the grammar as they are. goyacc numbers the grammar's named
+// tokens from 57346 (U+E002) upwards, inside the private use area, so a raw character of that range reaches the
+// grammar as a keyword or literal token whose text is that character. Every code point of U+DFF0..U+E2FF (and the
+// borders of the other planes) in 8 positions x all four modes.
+var c18RuneContexts = []string{"%s", "SELECT %s", "SELECT %s FROM t", "SELECT 1 WHERE %s = 1", "SELECT f(%s, 1)", "PRINT %s", "SELECT 1 %s 2", "%s 1", "SELECT a%s", "VAR @x := %s"}
+
+func c18FamRunes(s *c18State) bool {
+	var runes []rune
+	for r := rune(0xDFF0); r <= 0xE2FF; r++ {
+		if r >= 0xD800 && r <= 0xDFFF {
+			continue // surrogates are not characters; the bytes of their would-be encoding are covered by family chars (\xff)
+		}
+		runes = append(runes, r)
+	}
+	runes = append(runes, 0x1, 0x7f, 0x80, 0xA0, 0xD7FF, 0xF8FF, 0xFFFD, 0xFFFE, 0xFFFF, 0x10000, 0xF0000, 0x10FFFF)
+	for i, r := range runes {
+		if !s.c.Mine(int64(i)) {
+			continue
+		}
+		if s.expired("runes") {
+			return false
+		}
+		for _, ctx := range c18RuneContexts {
+			s.runText("runes", fmt.Sprintf(ctx, string(r)), true)
+		}
+		s.tick()
+	}
+	return true
 }
 
 func c18FamChars(s *c18State) bool {
